@@ -317,11 +317,11 @@ func (s *vC16stream) Write(b []byte) (int, error) {
 	}
 	return len(b), nil
 }
-func (s *vC16stream) Read(b []byte) (int, error)        { return 0, errors.New("eof") }
-func (s *vC16stream) Close() error                      { s.closed++; return nil }
-func (s *vC16stream) CloseWrite() error                 { return nil }
-func (s *vC16stream) Reset() error                      { s.reset++; return nil }
-func (s *vC16stream) SetDeadline(t time.Time) error     { return nil }
+func (s *vC16stream) Read(b []byte) (int, error)    { return 0, errors.New("eof") }
+func (s *vC16stream) Close() error                  { s.closed++; return nil }
+func (s *vC16stream) CloseWrite() error             { return nil }
+func (s *vC16stream) Reset() error                  { s.reset++; return nil }
+func (s *vC16stream) SetDeadline(t time.Time) error { return nil }
 
 type vC16host struct {
 	host.Host
@@ -336,7 +336,7 @@ type vC16host struct {
 }
 
 func (h *vC16host) Peerstore() peerstore.Peerstore { return h.ps }
-func (h *vC16host) Network() network.Network      { return h.nw }
+func (h *vC16host) Network() network.Network       { return h.nw }
 func (h *vC16host) Connect(ctx context.Context, pi peer.AddrInfo) error {
 	h.forceDirect, _ = network.GetForceDirectDial(ctx)
 	h.connectTo, h.connectAddr = pi.ID, len(pi.Addrs)
